@@ -2,6 +2,7 @@ package main
 
 import (
 	"fmt"
+	"go/types"
 	"golang.org/x/tools/go/ssa"
 	"os"
 )
@@ -58,6 +59,63 @@ func init() {
 			}
 			fmt.Println("PATH", ip.Exit, ip.Trace[:80])
 			fmt.Println("  rels", relList(ip.Rels))
+		}
+	})
+}
+
+func init() {
+	if os.Getenv("DBG_OK") == "" {
+		return
+	}
+	register("DBGOK", func(p *Prog, r *Report) {
+		for _, f := range p.FuncsIn(Mod) {
+			rm := p.Rels(f)
+			p.instrs(f, func(b *ssa.BasicBlock, i int, in ssa.Instruction) {
+				ex, ok := in.(*ssa.Extract)
+				if !ok || ex.Index != 0 {
+					return
+				}
+				c, ok := ex.Tuple.(*ssa.Call)
+				if !ok {
+					return
+				}
+				g := calleeOf(&c.Call)
+				if g == nil || g.Pkg == nil || !InRepo(g.Pkg.Pkg.Path()) || g.Signature.Results().Len() != 2 {
+					return
+				}
+				if types.TypeString(g.Signature.Results().At(1).Type(), nil) != "bool" {
+					return
+				}
+				if _, isStruct := ex.Type().Underlying().(*types.Struct); !isStruct {
+					return
+				}
+				var reads []ssa.Instruction
+				for _, u := range refs(ex) {
+					switch x := u.(type) {
+					case *ssa.Field:
+						reads = append(reads, x)
+					case *ssa.Store:
+						if a, ok := x.Addr.(*ssa.Alloc); ok {
+							for _, u2 := range refs(a) {
+								if fa, ok := u2.(*ssa.FieldAddr); ok {
+									for _, u3 := range refs(fa) {
+										if ld, ok := u3.(*ssa.UnOp); ok {
+											reads = append(reads, ld)
+										}
+									}
+								}
+							}
+						}
+					}
+				}
+				for _, u := range reads {
+					rs := p.RelsAt(rm, u)
+					k := sk(c) + "#1 == true"
+					if !rs[k] && !rs["true == "+sk(c)+"#1"] {
+						fmt.Println("UNGUARDED", FuncName(f), p.Pos(instrPos(u)), g.Name(), sk(u.(ssa.Value)))
+					}
+				}
+			})
 		}
 	})
 }
